@@ -171,7 +171,7 @@ TSolve ==
                ev.et = TolOfTag(ev.tag, "et"), <<l, "Solve", "settings", c>>)
     /\ Explain(ev.lmn = ts.lmn /\ ev.lmx = ts.lmx, <<l, "Solve", "lmn", ts.lmn>>)
     /\ Explain(ev.ret \in {0, -1}, <<l, "Solve", "ret", {0, -1}>>)
-    /\ Explain(MustSucceed(c) => ev.ret = 0, <<l, "Solve", "ret", 0>>)
+    /\ Explain(MustSucceedAt(c, ev.pt, ev.et) => ev.ret = 0, <<l, "Solve", "ret", 0>>)
     /\ IF ev.ret = 0
        THEN /\ Explain(ev.errno = "OK" /\ ev.cbn = 0, <<l, "Solve", "cbn", 0>>)
             /\ IF Analytic(c)
@@ -209,7 +209,7 @@ TApply ==
 TLadder ==
     /\ Ev.e = "Ladder"
     /\ Explain(ts.ph = "solved", <<l, "Ladder", "phase", "solved">>)
-    /\ Explain(MustSucceed(ts.cfg) => Ev.allOk = 1, <<l, "Ladder", "allOk", 1>>)
+    /\ Explain(Ev.n = Len(LadderExps), <<l, "Ladder", "n", Len(LadderExps)>>)
     /\ Explain(Ev.mono = 1, <<l, "Ladder", "tighterIsCloser", 1>>)
     /\ ts' = ts
     /\ UNCHANGED lmvars
